@@ -1277,8 +1277,10 @@ func (w *World) checkPartition(s *txfile.VerifSnapshot, after string) bool {
 		if s.MetaEnd > end {
 			end = s.MetaEnd
 		}
-		// coverage: every page below the data end marker has an owner
-		for id := txfile.PageID(2); id < s.DataEnd; id++ {
+		// coverage: every page below the data end marker has an owner. With
+		// the overflow area in use the markers also cover released overflow
+		// pages; the conservation property (C11) excludes that case.
+		for id := txfile.PageID(2); id < s.DataEnd && !w.OverflowEver; id++ {
 			if _, ok := owner[id]; !ok {
 				w.violate("partition-leak", "partition-leak", "after %s: page %d (< data end %d) is neither live, free nor meta: leaked", after, id, s.DataEnd)
 				return false
@@ -1355,7 +1357,8 @@ func (w *World) checkConservation(s *txfile.VerifSnapshot, after string) bool {
 	}
 	st := w.Obs.Last()
 	if int(st.DataAllocated) != live {
-		w.violate("stats-data", "stats-data", "after %s: FileStats.DataAllocated=%d but %d pages are live", after, st.DataAllocated, live)
+		w.violate("stats-data", "stats-data", "after %s: FileStats.DataAllocated=%d but %d pages are live (dataEnd=%d metaEnd=%d metaTotal=%d dataFree=%d hdrDataEnd=%d hdrMetaEnd=%d)", after, st.DataAllocated, live,
+			s.DataEnd, s.MetaEnd, s.MetaTotal, s.DataAvail, s.Headers[s.MetaActive].DataEnd, s.Headers[s.MetaActive].MetaEnd)
 		return false
 	}
 	if st.MetaArea != s.MetaTotal {
@@ -1366,8 +1369,8 @@ func (w *World) checkConservation(s *txfile.VerifSnapshot, after string) bool {
 		w.violate("stats-meta-alloc", "stats-meta-alloc", "after %s: FileStats.MetaAllocated=%d but %d meta pages are in use", after, st.MetaAllocated, s.MetaTotal-s.MetaAvail)
 		return false
 	}
-	if ext := w.Disk.MaxExtent; ext > int64(maxPages)*int64(w.Cfg.PageSize) {
-		w.violate("extent", "extent", "after %s: file extent %d exceeds maximum size %d", after, ext, int64(maxPages)*int64(w.Cfg.PageSize))
+	if ext := w.Disk.MaxExtent; ext > int64(w.Cfg.MaxSize()) {
+		w.violate("extent", "extent", "after %s: file extent %d exceeds the configured maximum size %d", after, ext, w.Cfg.MaxSize())
 		return false
 	}
 	w.Res.Add("conservation_checks", 1)
